@@ -6,6 +6,9 @@ inside the inscribed disc for radon; every sinogram sample for iradon) is enumer
 operators are compared entry by entry — complete for that size and angle set. Larger sizes use an
 image alphabet. Every point of the lattice is executed on the real radon_torch / iradon_torch /
 get_fourier_filter_torch and compared with skimage.transform.radon / iradon / _get_fourier_filter.
+A second part explores call HISTORIES: every ordered pair (thorough: triple) of calls from a small
+alphabet of filter / iradon / radon calls, each history on a freshly re-imported module, the last call
+compared with the reference — a result must not depend on what was called before (caches, scratch buffers).
 """
 from __future__ import annotations
 
@@ -293,6 +296,72 @@ def w_iradon_images(item, seed=0, quick=True):
     return t
 
 
+# ----------------------------------------------------------------------------- call histories (hidden state between calls)
+def _call_alphabet(quick):
+    calls = [("filter", size, f) for size in (64, 128) for f in FILTERS]
+    calls += [("iradon", N, f) for N in ((5, 22) if quick else (5, 22, 23)) for f in ("ramp", "hann", None)]
+    calls += [("radon", N, "irregular") for N in (6, 9)]
+    return calls
+
+
+def _do_call(call, seed, check):
+    """Execute one call of the alphabet on the real code; when `check` compare with the reference. Returns error or None."""
+    import importlib
+
+    torch, _ = _lib()
+    R = importlib.import_module("quantem.tomography.radon.radon")
+    kind = call[0]
+    if kind == "filter":
+        from skimage.transform.radon_transform import _get_fourier_filter
+
+        got = R.get_fourier_filter_torch(call[1], call[2]).numpy().reshape(-1).astype(np.float64)
+        if check:
+            e = rel_err(got, _get_fourier_filter(call[1], call[2])[:, 0])
+            return e if e > TOL_FILTER else None
+    elif kind == "iradon":
+        N, f = call[1], call[2]
+        s = make_sino(("snoise", 0), N, IRREG, seed)
+        got = R.iradon_torch(torch.tensor(s, dtype=torch.float32), theta=torch.tensor(IRREG, dtype=torch.float32), filter_name=f, circle=True).numpy().astype(np.float64)
+        if check:
+            e = rel_err(got, _iradon_ref(s, IRREG, f))
+            return e if e > TOL_IRADON else None
+    else:
+        N = call[1]
+        im = make_image(("edge",), N, seed)
+        got = R.radon_torch(torch.tensor(im, dtype=torch.float32), theta=torch.tensor(IRREG, dtype=torch.float32)).numpy().astype(np.float64)
+        if check:
+            e = rel_err(got, _radon_ref(im, IRREG))
+            return e if e > TOL else None
+    return None
+
+
+def w_call_history(item, seed=0, quick=True):
+    """All call sequences with the given first call: the LAST call of every sequence is compared with the reference.
+    The radon module is re-imported before each sequence, so every sequence starts from a fresh module state and a
+    failure names the shortest history that produces it (a result must not depend on earlier calls)."""
+    import importlib
+    import sys
+
+    first = tuple(item)
+    t = Tally()
+    calls = _call_alphabet(quick)
+    depth = 2 if quick else 3
+    tails = [[c] for c in calls] if depth == 2 else [[c] for c in calls] + [[m, c] for m in calls[::3] for c in calls]
+    mod = sys.modules.get("quantem.tomography.radon.radon") or importlib.import_module("quantem.tomography.radon.radon")
+    for tail in tails:
+        importlib.reload(mod)  # fresh module-level state for every history
+        hist = [first] + [tuple(c) for c in tail]
+        for c in hist[:-1]:
+            _do_call(c, seed, check=False)
+        e = _do_call(hist[-1], seed, check=True)
+        case = {"kind": "call_history", "history": [list(c) for c in hist]}
+        t.case(key=case, nontrivial=hist[-1] != hist[0], outcome=None)
+        if e is not None:
+            t.fail({"relation": "result_independent_of_earlier_calls", "last_call": hist[-1][0]}, case, f"after the calls {[list(c) for c in hist[:-1]]} the call {list(hist[-1])} differs from the scikit-image reference by {e:.3e} of max (alone it agrees)")
+    importlib.reload(mod)
+    return t
+
+
 # ----------------------------------------------------------------------------- driver
 def run(ctx):
     q = ctx.quick
@@ -329,6 +398,10 @@ def run(ctx):
     ctx.pmap(w_radon_images, sizes, chunk=1, label="radon images", seed=ctx.seed, quick=q)
     ctx.pmap(w_iradon_basis, list(itertools.product(ir_basis, FILTERS)), chunk=1, label="iradon delta basis", seed=ctx.seed, quick=q)
     ctx.pmap(w_iradon_images, list(itertools.product(ir_sizes, FILTERS)), chunk=1, label="iradon images", seed=ctx.seed, quick=q)
+    calls = _call_alphabet(q)
+    ctx.coverage["bounds"]["call_history_alphabet"] = len(calls)
+    ctx.coverage["bounds"]["call_history_depth"] = 2 if q else 3
+    ctx.pmap(w_call_history, calls, chunk=1, label="call histories", seed=ctx.seed, quick=q)
     if len(ctx.tally.outcomes) < 20:
         raise Broken("too few distinct reference outputs: the lattice did not vary")
 
@@ -345,6 +418,20 @@ def replay(ctx, case):
         d = case["sino"]
         desc = (d[0],) + tuple(tuple(x) if isinstance(x, list) else x for x in d[1:])
         check_iradon_case(t, case["N"], case["angle_set"], [float(a) for a in case["angles"]], case["filter"], [desc], seed, batch=1)
+    elif k == "call_history":
+        import importlib, sys
+
+        hist = [tuple(c) for c in case["history"]]
+        mod = sys.modules.get("quantem.tomography.radon.radon") or importlib.import_module("quantem.tomography.radon.radon")
+        importlib.reload(mod)
+        for c in hist[:-1]:
+            _do_call(c, seed, check=False)
+        e = _do_call(hist[-1], seed, check=True)
+        importlib.reload(mod)
+        alone = _do_call(hist[-1], seed, check=True)
+        print(f"  last call after the history: {'differs by %.3e' % e if e is not None else 'agrees'}; alone: {'differs by %.3e' % alone if alone is not None else 'agrees'}")
+        if e is not None:
+            t.fail({"relation": "result_independent_of_earlier_calls", "last_call": hist[-1][0]}, case, f"history {case['history']}: last call differs from the reference by {e:.3e}")
     elif k == "radon_linearity":
         t = w_radon_images(case["N"], seed=seed, quick=True)
     elif k == "iradon_linearity":
